@@ -306,7 +306,6 @@ func (w *world) snapshot() *snap {
 	return s
 }
 
-
 // queryBalance / queryTotal go through the keeper's EVM query helpers (erc20.go).
 func (w *world) queryBalance(c, a int) *big.Int {
 	cctx, _ := w.ctx.CacheContext()
